@@ -149,8 +149,9 @@ for _fmt, _kw in VARIANTS:
 E = Ellipsis
 TYPE_CASES = (("Literal['a', 'b', 'c']", "b"), ("Literal['a', 'b']", E), ("List[str]", E), ("Union[int, str]", 3), ("Union[int, str]", "x"), ("os.PathLike", E),
               ("Dict[str, int]", E), ("Callable[[int], str]", E), ("float", -0.5), ("int", 10 ** 20), ("complex", E), ("str", "a b"), ("float", 1e20),
-              ("float", 1e-07), ("str", ""), ("Optional[List[int]]", E), ("Tuple[int, int]", E), ("List[Optional[str]]", E))
-ARGPARSE_CASES = (0, 8, 9, 11, 12, 13, 14)  # what an add_argument call can carry WITH a default (without: finding F23); the others are finding F40
+              ("float", 1e-07), ("str", ""), ("Optional[List[int]]", E), ("Tuple[int, int]", E), ("List[Optional[str]]", E),
+              ("Literal['sum', 'mean', 'none']", "mean"), ("Optional[Literal['valid', 'same']]", "same"), ("Literal['b', 'a', 'b']", "a"))  # members NOT in sorted order / repeated
+ARGPARSE_CASES = (0, 8, 9, 11, 12, 13, 14, 18, 19, 20)  # what an add_argument call can carry WITH a default (without: finding F23); the others are finding F40
 
 
 def _types(fmt, style, edd, cases, **kw):
@@ -177,7 +178,7 @@ for _fmt, _kw in VARIANTS:
         for _j in range(0, len(_all), 3):
             _cs = _all[_j:_j + 3]
             ob("C02", "P1.types.%s.rest.%s.k%d" % (_vt, "dflt" if _edd else "nodflt", _cs[0]), {"kind": R(_cs[0], _cs[-1]), "x": PR},
-               pre="x != 47 and (" + " or ".join("kind == %d" % c for c in _cs) + ")", tier="thorough" if _edd or _kw.get("kwonly") else "quick", T=400, tpath=60,
+               pre="x != 47 and (" + " or ".join("kind == %d" % c for c in _cs) + ")", tier="thorough" if _edd or _kw.get("kwonly") or _fmt == "pydantic" or _kw.get("type_annotations") is False else "quick", T=400, tpath=60,
                funcs=FORMAT_FUNCS[_fmt], assumes=[ADHOC_SHIMS_DOC],
                bound="two parameters; one of type %s (with the listed default or none); description 'the '+X+' arg' for every printable X except '/'" % ", ".join(
                    "%s%s" % (TYPE_CASES[c][0], "" if TYPE_CASES[c][1] is E else "=%r" % (TYPE_CASES[c][1],)) for c in _cs))(_types(_fmt, "rest", _edd, _cs, **_kw))
